@@ -332,7 +332,26 @@ def c20_4(ctx):
     if "bcur_decode(data=''.join(payloads), checksum=global_checksum)" in src:
         out.append(ctx.ok(spec, "the joined payload is decoded against the shared digest", fn, mod, key="final-digest"))
     else:
-        out.append(ctx.err(spec, "final decode of the joined payload against the shared digest not recognised", fn, mod))
+        # the same call written through temporaries / an inlined helper: read the two arguments through their definitions
+        verdict = None
+        for n_, c_ in rl.find_calls(fn, "bcur_decode"):
+            args_ = {k.arg: k.value for k in c_.keywords}
+            for i_, nm_ in enumerate(("data", "checksum")):
+                if i_ < len(c_.args):
+                    args_.setdefault(nm_, c_.args[i_])
+            if "data" in args_ and "checksum" in args_:
+                d_ = ast.unparse(expand(fn, n_.id, args_["data"], depth=4, stop={"payloads", "global_checksum", "entry_checksum"}))
+                k_ = ast.unparse(expand(fn, n_.id, args_["checksum"], depth=4, stop={"payloads", "global_checksum", "entry_checksum"}))
+                if d_ == "''.join(payloads)" and k_ == "global_checksum":
+                    verdict = True
+                elif d_ == "''.join(payloads)" and k_ in ("None", "entry_checksum"):
+                    verdict = "the joined payload is decoded with checksum `%s`, not the digest shared by all parts" % k_
+        if verdict is True:
+            out.append(ctx.ok(spec, "the joined payload is decoded against the shared digest", fn, mod, key="final-digest"))
+        elif verdict:
+            out.append(ctx.bad(spec, verdict, fn, mod, key="final-digest"))
+        else:
+            out.append(ctx.err(spec, "final decode of the joined payload against the shared digest not recognised", fn, mod))
     return out
 
 
